@@ -422,6 +422,376 @@ func (t *c15zTr) positions() (string, error) {
 	return fmt.Sprintf("/-- `readPositions` (version 2): three little-endian bytes assembled into a uint32, bit 23 extended, `int32(·)`,\n    `.ToFloat64().Scale(1.0 / float64(1 << FractionalBits))`; record index `i9 := i * 9` -/\ndef posSrc (E : Env α) (fb : Nat) (b0 b1 b2 b3 b4 b5 b6 b7 b8 : UInt8) : V3 α :=\n  ⟨%s⟩\n\n", strings.Join(comps, ",\n   ")), nil
 }
 
+// ---------------------------------------------------------------- util.go halfToFloat (version-1 positions)
+
+type c15hTr struct {
+	fset    *token.FileSet
+	u16     map[string]string // uint16 locals -> Lean BitVec 16 expression
+	signVar string            // the float sign multiplier and the condition that makes it negative
+	signCnd string
+}
+
+func (t *c15hTr) at(n ast.Node) string {
+	return fmt.Sprintf("util.go:%d", t.fset.Position(n.Pos()).Line)
+}
+
+// uint16 expressions: h, locals, >> k, & mask, parentheses
+func (t *c15hTr) bits(e ast.Expr) (string, error) {
+	switch x := e.(type) {
+	case *ast.ParenExpr:
+		return t.bits(x.X)
+	case *ast.Ident:
+		if v, ok := t.u16[x.Name]; ok {
+			return v, nil
+		}
+	case *ast.BinaryExpr:
+		l, err := t.bits(x.X)
+		if err != nil {
+			return "", err
+		}
+		lit, ok := x.Y.(*ast.BasicLit)
+		if !ok {
+			return "", fmt.Errorf("%s: right operand of %s is not a literal", t.at(x), x.Op)
+		}
+		switch x.Op {
+		case token.SHR:
+			return fmt.Sprintf("(%s >>> %s)", l, lit.Value), nil
+		case token.AND:
+			return fmt.Sprintf("(%s &&& %s#16)", l, lit.Value), nil
+		}
+	}
+	return "", fmt.Errorf("%s: unsupported uint16 expression %s", t.at(e), c15Src(t.fset, e))
+}
+
+// <uint16 expr> ==/!= <literal>
+func (t *c15hTr) cond(e ast.Expr) (string, error) {
+	b, ok := e.(*ast.BinaryExpr)
+	if ok {
+		if lit, ok := b.Y.(*ast.BasicLit); ok && (b.Op == token.EQL || b.Op == token.NEQ) {
+			l, err := t.bits(b.X)
+			if err != nil {
+				return "", err
+			}
+			op := map[token.Token]string{token.EQL: "=", token.NEQ: "≠"}[b.Op]
+			return fmt.Sprintf("%s %s %s#16", l, op, lit.Value), nil
+		}
+	}
+	return "", fmt.Errorf("%s: unsupported condition %s", t.at(e), c15Src(t.fset, e))
+}
+
+// integer-valued exponent of math.Pow(2, ·): constants, float64(<uint16>), + -
+func (t *c15hTr) intExpr(e ast.Expr) (string, error) {
+	switch x := e.(type) {
+	case *ast.ParenExpr:
+		return t.intExpr(x.X)
+	case *ast.BasicLit:
+		r, ok := new(big.Rat).SetString(strings.TrimSuffix(x.Value, "."))
+		if ok && r.IsInt() {
+			return r.Num().String(), nil
+		}
+	case *ast.UnaryExpr:
+		if x.Op == token.SUB {
+			s, err := t.intExpr(x.X)
+			return "(-" + s + ")", err
+		}
+	case *ast.BinaryExpr:
+		if x.Op == token.ADD || x.Op == token.SUB {
+			l, err := t.intExpr(x.X)
+			if err != nil {
+				return "", err
+			}
+			r, err := t.intExpr(x.Y)
+			if err != nil {
+				return "", err
+			}
+			return fmt.Sprintf("%s %s %s", l, x.Op, r), nil
+		}
+	case *ast.CallExpr:
+		if c15Src(t.fset, x.Fun) == "float64" && len(x.Args) == 1 {
+			b, err := t.bits(x.Args[0])
+			if err != nil {
+				return "", err
+			}
+			return fmt.Sprintf("(%s.toNat : Int)", b), nil
+		}
+	}
+	return "", fmt.Errorf("%s: unsupported integer exponent %s", t.at(e), c15Src(t.fset, e))
+}
+
+func (t *c15hTr) fl(e ast.Expr) (string, error) {
+	switch x := e.(type) {
+	case *ast.ParenExpr:
+		s, err := t.fl(x.X)
+		return s, err
+	case *ast.BasicLit:
+		r, ok := new(big.Rat).SetString(strings.TrimSuffix(x.Value, "."))
+		if ok && r.IsInt() && r.Sign() >= 0 {
+			return fmt.Sprintf("natF %s", r.Num()), nil
+		}
+	case *ast.Ident:
+		if x.Name == t.signVar {
+			return "signMul", nil
+		}
+	case *ast.BinaryExpr:
+		op := map[token.Token]string{token.ADD: "+", token.SUB: "-", token.MUL: "*", token.QUO: "/"}[x.Op]
+		if op != "" {
+			l, err := t.fl(x.X)
+			if err != nil {
+				return "", err
+			}
+			r, err := t.fl(x.Y)
+			if err != nil {
+				return "", err
+			}
+			if _, ok := x.Y.(*ast.ParenExpr); ok {
+				r = "(" + r + ")"
+			}
+			return fmt.Sprintf("%s %s %s", l, op, r), nil
+		}
+	case *ast.CallExpr:
+		switch c15Src(t.fset, x.Fun) {
+		case "float64":
+			if len(x.Args) == 1 {
+				b, err := t.bits(x.Args[0])
+				if err != nil {
+					return "", err
+				}
+				return fmt.Sprintf("natF %s.toNat", b), nil
+			}
+		case "math.Pow":
+			if len(x.Args) == 2 {
+				if base, ok := x.Args[0].(*ast.BasicLit); ok && (base.Value == "2.0" || base.Value == "2" || base.Value == "2.") {
+					k, err := t.intExpr(x.Args[1])
+					if err != nil {
+						return "", err
+					}
+					return fmt.Sprintf("E.pow2 (%s)", k), nil
+				}
+			}
+		case "math.NaN":
+			if len(x.Args) == 0 {
+				return "E.nan", nil
+			}
+		case "math.Inf":
+			if len(x.Args) == 1 && c15Src(t.fset, x.Args[0]) == "int("+t.signVar+")" {
+				return fmt.Sprintf("if %s then -E.inf else E.inf", t.signCnd), nil
+			}
+		}
+	}
+	return "", fmt.Errorf("%s: unsupported float expression %s", t.at(e), c15Src(t.fset, e))
+}
+
+// a statement list ending in a return, as one expression
+func (t *c15hTr) block(sts []ast.Stmt) (string, error) {
+	if len(sts) == 0 {
+		return "", fmt.Errorf("util.go: a branch of halfToFloat does not return")
+	}
+	switch s := sts[0].(type) {
+	case *ast.ReturnStmt:
+		if len(s.Results) == 1 {
+			return t.fl(s.Results[0])
+		}
+	case *ast.IfStmt:
+		if s.Init == nil {
+			c, err := t.cond(s.Cond)
+			if err != nil {
+				return "", err
+			}
+			th, err := t.block(s.Body.List)
+			if err != nil {
+				return "", err
+			}
+			var el string
+			if s.Else != nil {
+				eb, ok := s.Else.(*ast.BlockStmt)
+				if !ok || len(sts) != 1 {
+					return "", fmt.Errorf("%s: unsupported else", t.at(s))
+				}
+				el, err = t.block(eb.List)
+			} else {
+				el, err = t.block(sts[1:])
+			}
+			if err != nil {
+				return "", err
+			}
+			return fmt.Sprintf("if %s then (%s)\n  else (%s)", c, th, el), nil
+		}
+	}
+	return "", fmt.Errorf("%s: unsupported statement in halfToFloat", t.at(sts[0]))
+}
+
+func c15HalfSrc(repo string) (string, error) {
+	t := &c15hTr{fset: token.NewFileSet(), u16: map[string]string{}}
+	f, err := parser.ParseFile(t.fset, filepath.Join(repo, "formats", "spz", "util.go"), nil, 0)
+	if err != nil {
+		return "", err
+	}
+	var fd *ast.FuncDecl
+	for _, d := range f.Decls {
+		if x, ok := d.(*ast.FuncDecl); ok && x.Name.Name == "halfToFloat" {
+			fd = x
+		}
+	}
+	if fd == nil || c15Src(t.fset, fd.Type) != "func(h uint16) float64" {
+		return "", fmt.Errorf("util.go: func halfToFloat(h uint16) float64 not found")
+	}
+	t.u16["h"] = "h"
+	var lets []string
+	sts := fd.Body.List
+	k := 0
+	for ; k < len(sts); k++ {
+		as, ok := sts[k].(*ast.AssignStmt)
+		if !ok || as.Tok != token.DEFINE || len(as.Lhs) != 1 {
+			break
+		}
+		name := as.Lhs[0].(*ast.Ident).Name
+		if lit, ok := as.Rhs[0].(*ast.BasicLit); ok { // signMul := 1.0 ; if <cond> { signMul = -1.0 }
+			if lit.Value != "1.0" || k+1 >= len(sts) {
+				return "", fmt.Errorf("%s: unsupported float local", t.at(as))
+			}
+			is, ok := sts[k+1].(*ast.IfStmt)
+			if !ok || is.Else != nil || len(is.Body.List) != 1 || c15Src(t.fset, is.Body.List[0]) != name+" = -1.0" {
+				return "", fmt.Errorf("%s: expected `if … { %s = -1.0 }`", t.at(sts[k+1]), name)
+			}
+			c, err := t.cond(is.Cond)
+			if err != nil {
+				return "", err
+			}
+			t.signVar, t.signCnd = name, c
+			lets = append(lets, fmt.Sprintf("let signMul : α := if %s then -(natF 1) else natF 1", c))
+			k++
+			continue
+		}
+		b, err := t.bits(as.Rhs[0])
+		if err != nil {
+			return "", err
+		}
+		lets = append(lets, fmt.Sprintf("let %s := %s", name, b))
+		t.u16[name] = name
+	}
+	if t.signVar == "" {
+		return "", fmt.Errorf("util.go: halfToFloat: sign multiplier not found")
+	}
+	// the sign condition is used again in math.Inf: expand the locals it mentions (none: it is written over h)
+	body, err := t.block(sts[k:])
+	if err != nil {
+		return "", err
+	}
+	return fmt.Sprintf("/-- util.go `halfToFloat(h uint16) float64`: the source's shifts and masks on `BitVec 16`, `math.Pow(2.0, k)` as\n    `E.pow2 k`, `math.NaN()` / `math.Inf(int(signMul))` as `E.nan` / `±E.inf` -/\ndef halfSrc (E : Env α) (h : BitVec 16) : α :=\n  %s\n  %s\n\n", strings.Join(lets, "\n  "), body), nil
+}
+
+// ---------------------------------------------------------------- planar layout: order and sizes of the reads of spz.Read
+
+func c15LayoutSrc(t *c15zTr, repo string) (string, error) {
+	fset := token.NewFileSet()
+	f, err := parser.ParseFile(fset, filepath.Join(repo, "formats", "spz", "load.go"), nil, 0)
+	if err != nil {
+		return "", err
+	}
+	var rd *ast.FuncDecl
+	for _, d := range f.Decls {
+		if x, ok := d.(*ast.FuncDecl); ok && x.Recv == nil && x.Name.Name == "Read" {
+			rd = x
+		}
+	}
+	if rd == nil {
+		return "", fmt.Errorf("load.go: func Read not found")
+	}
+	re := regexp.MustCompile(`^\w+, err := header\.(read\w+)\(in\)$`)
+	var order []string
+	for _, st := range rd.Body.List {
+		if m := re.FindStringSubmatch(c15Src(fset, st)); m != nil {
+			order = append(order, m[1])
+		}
+	}
+	// buffer of a reader: the first make([]T, n) of its body
+	mk := regexp.MustCompile(`^(\w+) := make\(\[\](byte|uint16), (.*)\)$`)
+	size := func(name string) (string, error) {
+		fd, ok := t.funcs["Header."+name]
+		if !ok {
+			return "", fmt.Errorf("header.go: %s not found", name)
+		}
+		for _, st := range fd.Body.List {
+			if m := mk.FindStringSubmatch(c15Src(t.fset, st)); m != nil {
+				e := strings.ReplaceAll(m[3], " ", "")
+				var lean string
+				switch e {
+				case "pgh.NumPoints":
+					lean = "h.numPoints"
+				case "pgh.NumPoints*3", "pgh.NumPoints*9":
+					lean = "h.numPoints * " + e[len("pgh.NumPoints*"):]
+				case "pgh.NumPoints*3*uint32(shDim)":
+					lean = "h.numPoints * 3 * shDimSrc h.shDegree"
+				default:
+					return "", fmt.Errorf("header.go: %s: unsupported buffer size %s", name, m[3])
+				}
+				if m[2] == "uint16" {
+					lean = "(" + lean + ") * 2"
+				}
+				return lean, nil
+			}
+		}
+		return "", fmt.Errorf("header.go: %s allocates no buffer", name)
+	}
+	want := []string{"readPositions", "readAlphas", "readColors", "readScale", "readRotations", "readSh"}
+	if strings.Join(order, ",") != strings.Join(want, ",") {
+		return "", fmt.Errorf("load.go: Read calls %v, expected %v", order, want)
+	}
+	if fd, ok := t.funcs["Header.Float16Positions"]; !ok || c15Src(t.fset, fd.Body) != "{ return pgh.Version == 1 }" {
+		return "", fmt.Errorf("header.go: Float16Positions is not `return pgh.Version == 1`")
+	}
+	if fd := t.funcs["Header.readPositions"]; !strings.HasPrefix(c15Src(t.fset, fd.Body), "{ if pgh.Float16Positions() { return pgh.readPositionsFloat16(in) }") {
+		return "", fmt.Errorf("header.go: readPositions does not dispatch on Float16Positions first")
+	}
+	// ShDimensions: switch pgh.ShDegree { case k: return v, nil … }
+	sd, ok := t.funcs["Header.ShDimensions"]
+	if !ok || len(sd.Body.List) != 1 {
+		return "", fmt.Errorf("header.go: ShDimensions not found")
+	}
+	sw, ok := sd.Body.List[0].(*ast.SwitchStmt)
+	if !ok || c15Src(t.fset, sw.Tag) != "pgh.ShDegree" {
+		return "", fmt.Errorf("header.go: ShDimensions is not a switch on pgh.ShDegree")
+	}
+	var arms []string
+	cre := regexp.MustCompile(`^return (\d+), nil$`)
+	for _, c := range sw.Body.List {
+		cc := c.(*ast.CaseClause)
+		if cc.List == nil {
+			continue // default: the error branch (Validate rejects those degrees)
+		}
+		m := cre.FindStringSubmatch(c15Src(t.fset, cc.Body[0]))
+		if len(cc.List) != 1 || len(cc.Body) != 1 || m == nil {
+			return "", fmt.Errorf("%s: unsupported case of ShDimensions", t.at(cc))
+		}
+		arms = append(arms, fmt.Sprintf("  | %s => some %s", c15Src(t.fset, cc.List[0]), m[1]))
+	}
+	var sizes []string
+	for _, r := range order {
+		if r == "readPositions" {
+			a, err := size("readPositionsFloat16")
+			if err != nil {
+				return "", err
+			}
+			b, err := size("readPositions")
+			if err != nil {
+				return "", err
+			}
+			sizes = append(sizes, fmt.Sprintf("if h.version = 1 then %s else %s", a, b))
+			continue
+		}
+		s, err := size(r)
+		if err != nil {
+			return "", err
+		}
+		sizes = append(sizes, s)
+	}
+	var b strings.Builder
+	fmt.Fprintf(&b, "/-- `Header.ShDimensions`: the cases of its switch (`none` = the error branch) -/\ndef shDimSrc? (deg : Nat) : Option Nat :=\n  match deg with\n%s\n  | _ => none\n\ndef shDimSrc (deg : Nat) : Nat := (shDimSrc? deg).getD 0\n\n", strings.Join(arms, "\n"))
+	fmt.Fprintf(&b, "/-- the readers `spz.Read` (load.go) calls after the header, in order -/\ndef readOrder : List String := [%s]\n\n", `"`+strings.Join(order, `", "`)+`"`)
+	fmt.Fprintf(&b, "/-- the buffer each of them fills with one `ReadFull` / `binary.Read` (bytes; `[]uint16` counts twice), in that order:\n    the planes of the stream are consecutive, so plane `k` starts at 16 + the sum of the sizes before it -/\ndef planeSizesSrc (h : Header) : List Nat :=\n  [%s]\n\n", strings.Join(sizes, ",\n   "))
+	return b.String(), nil
+}
+
 func c15SpzDequant(repo, out string, args []string) error {
 	t := &c15zTr{fset: token.NewFileSet(), funcs: map[string]*ast.FuncDecl{}}
 	f, err := parser.ParseFile(t.fset, filepath.Join(repo, "formats", "spz", "header.go"), nil, 0)
@@ -439,6 +809,7 @@ func c15SpzDequant(repo, out string, args []string) error {
 	}
 	var b strings.Builder
 	b.WriteString("/-\n  GENERATED by /verif/go/facts (mode c15.spzdequant) from /repo/formats/spz/header.go.\n  Do not edit: regenerated by ./check C15 before every build.\n-/\nimport PolyVerif.Model.Spz\n\nnamespace PolyVerif.Gen.SpzDequant\nopen PolyVerif PolyVerif.Spz Scalar\n\nvariable {α : Type} [Scalar α]\n\n")
+	strides := []string{}
 	for _, r := range []struct{ fn, data, def, ty, doc string }{
 		{"readAlphas", "alpha", "alphaSrc", "α", "`readAlphas`: the value stored for one alpha byte"},
 		{"readColors", "colorData", "colorSrc", "V3 α", "`readColors`: one colour from its three bytes"},
@@ -451,12 +822,24 @@ func c15SpzDequant(repo, out string, args []string) error {
 			return err
 		}
 		b.WriteString(c15zDef(r.def, r.ty, o, r.doc))
+		strides = append(strides, fmt.Sprintf("(%q, %q)", r.fn, o.stride))
 	}
 	p, err := t.positions()
 	if err != nil {
 		return err
 	}
 	b.WriteString(p)
+	hs, err := c15HalfSrc(repo)
+	if err != nil {
+		return err
+	}
+	b.WriteString(hs)
+	ls, err := c15LayoutSrc(t, repo)
+	if err != nil {
+		return err
+	}
+	b.WriteString(ls)
+	fmt.Fprintf(&b, "/-- the record index statement of each element loop, as written (`readPositions`: `i9 := i * 9`, matched exactly) -/\ndef strides : List (String × String) :=\n  [%s]\n\n", strings.Join(strides, ",\n   "))
 	b.WriteString("end PolyVerif.Gen.SpzDequant\n")
 	return os.WriteFile(out, []byte(b.String()), 0o644)
 }
